@@ -142,41 +142,96 @@ def product_terms(v, f, ps, p1, p2, ivar_loop_depth=0):
     return out, ""
 
 
+class _GenericRunNeedsCases(Exception):
+    pass
+
+
 def schoolbook_by_interpretation(chk, v, f, negacyclic):
-    """the function's effect tree is interpreted for N = 1..7 with the coefficients of both operands as indeterminates
+    """the function's effect tree is interpreted for N = 1..10 with the coefficients of both operands as indeterminates
     (concrete.PolyState): every result[i] must be exactly the polynomial sum_{j+k=i} p1[j]p2[k] (- sum_{j+k=N+i} when negacyclic),
-    whatever it held before.  -> None or a witness"""
+    whatever it held before.  Tests of the form `p1[j] == 0` (trailing zeros skipped, sparse operands) are decided per case: for every
+    number s of significant coefficients of the integer operand, p1[j] = 0 for j >= s and p1[s-1] != 0.  -> None or a witness"""
     from sa import concrete, symexec
     names = [p["n"] for p in f.params]
     R, A, B, Nn = (sym.sym(n) for n in names[:4])
     effs = symexec.run_function(v, f, hooks=NOINLINE)[0]
+    at = lambda arr, i_: ("init", concrete.lvalue_location(sym.idx(arr, I(i_)), {}))
+    norm = lambda d: {m: c % (1 << 32) for m, c in d.items() if c % (1 << 32)}
+    data_tests = [False]
     for nv in range(1, 11):
-        st = concrete.PolyState()
+        for nsig in [None] + list(range(0, nv + 1)):
+            if nsig is not None and not data_tests[0]:
+                break                      # no test on the data was met in the generic run: one case
+            st = concrete.PolyState()
+            zero = set() if nsig is None else {at(A, j) for j in range(nsig, nv)}
+            nonzero = None if not nsig else at(A, nsig - 1)
+            for a_ in zero:
+                st.write(a_[1], {})
 
-        def h(kind, x, env):
-            if kind in ("local", "store"):
-                st.assign(x, env)
-            elif kind in ("call", "asm", "unknown", "alloc", "delete"):
-                raise concrete.NotEvaluable("%s at line %s" % (kind, x.get("l")))
-            return None
-        try:
-            concrete.interpret(effs, {Nn: nv}, h, on_segment=st.segment)
-        except concrete.NotEvaluable as e:
-            chk.broken("%s: %s" % (f.name, e))
-        at = lambda arr, i_: ("init", concrete.lvalue_location(sym.idx(arr, I(i_)), {}))
-        for i_ in range(nv if negacyclic else 2 * nv - 1):
-            want = {}
-            for j in range(nv):
-                for k in range(nv):
-                    sgn = 1 if j + k == i_ else (-1 if negacyclic and j + k == nv + i_ else 0)
-                    if sgn:
-                        want[tuple(sorted([at(A, j), at(B, k)], key=repr))] = sgn
-            got = st.read(concrete.lvalue_location(sym.idx(R, I(i_)), {}))
-            if got is None:
-                chk.broken("%s: result[%d] is not a polynomial in the operands for N = %d" % (f.name, i_, nv))
-            norm = lambda d: {m: c % (1 << 32) for m, c in d.items() if c % (1 << 32)}
-            if norm(got) != norm(want):
-                return "for N = %d, result[%d] = %s" % (nv, i_, concrete.show_poly(got, 6))
+            def h(kind, x, env):
+                if kind in ("local", "store"):
+                    st.assign(x, env)
+                elif kind == "cond":
+                    def const(val):
+                        return 0 if val == {} else val.get(()) if set(val) == {()} else None
+
+                    def decide(c):
+                        if c[0] == "un" and c[1] == "!":
+                            r_ = decide(c[2])
+                            return None if r_ is None else not r_
+                        if c[0] == "op" and c[1] in ("&&", "||"):
+                            a_ = decide(c[2])
+                            if a_ is not None and a_ == (c[1] == "||"):
+                                return a_
+                            b_ = decide(c[3])
+                            return None if a_ is None or b_ is None else b_
+                        if c[0] == "op" and c[1] in ("==", "!=", "<", "<=", ">", ">="):
+                            vl, vr = st.value(c[2], env), st.value(c[3], env)
+                            if vl is None or vr is None:
+                                return None
+                            cl, cr = const(vl), const(vr)
+                            if cl is not None and cr is not None:
+                                return {"==": cl == cr, "!=": cl != cr, "<": cl < cr, "<=": cl <= cr, ">": cl > cr, ">=": cl >= cr}[c[1]]
+                            if c[1] in ("==", "!=") and 0 in (cl, cr):
+                                val = vr if cl == 0 else vl            # a coefficient of the operand compared with zero
+                                if nonzero is not None and set(val) == {(nonzero,)}:
+                                    return c[1] == "!="
+                                data_tests[0] = True
+                                if nsig is None:
+                                    raise _GenericRunNeedsCases()
+                            return None
+                        val = st.value(c, env)
+                        return None if val is None or const(val) is None else bool(const(val))
+                    return decide(x["cond"])
+                elif kind == "value":
+                    val = st.value(x["term"], env)
+                    return None if val is None else (0 if val == {} else val.get(()) if set(val) == {()} else None)
+                elif kind in ("call", "asm", "unknown", "alloc", "delete"):
+                    raise concrete.NotEvaluable("%s at line %s" % (kind, x.get("l")))
+                return None
+            try:
+                concrete.interpret(effs, {Nn: nv}, h, on_segment=st.segment)
+            except _GenericRunNeedsCases:
+                continue
+            except concrete.NotEvaluable as e:
+                chk.broken("%s: %s" % (f.name, e))
+            for i_ in range(nv if negacyclic else 2 * nv - 1):
+                want = {}
+                for j in range(nv):
+                    if at(A, j) in zero:
+                        continue
+                    for k in range(nv):
+                        sgn = 1 if j + k == i_ else (-1 if negacyclic and j + k == nv + i_ else 0)
+                        if sgn:
+                            want[tuple(sorted([at(A, j), at(B, k)], key=repr))] = sgn
+                got = st.read(concrete.lvalue_location(sym.idx(R, I(i_)), {}))
+                if got is None:
+                    chk.broken("%s: result[%d] is not a polynomial in the operands for N = %d" % (f.name, i_, nv))
+                if norm(got) != norm(want):
+                    case = "" if nsig is None else " when the first operand has %d significant coefficient(s)" % nsig
+                    return "for N = %d%s, result[%d] = %s" % (nv, case, i_, concrete.show_poly(got, 6))
+            if nsig is None:
+                break                      # the generic run needed no case distinction
     return None
 
 
@@ -255,6 +310,15 @@ def check_schoolbook(chk, v, name, negacyclic):
     ok, why = pam.partition_ok(covered, total, [sym.sub(N, I(1))])
     if not ok:
         problems.append("output ranges: %s" % why)
+    if problems:
+        # the symbolic comparison was made for accumulate-into-a-scalar loops with affine bounds; on anything else its complaints are
+        # not witnesses.  The interpretation decides: a witness refutes, agreement for N = 1..10 (all data) is a bounded proof.
+        bad = schoolbook_by_interpretation(chk, v, f, negacyclic)
+        chk.require(bad is None, "R2", key, where=f.where,
+                    ok="interpreted for N = 1..10 over indeterminate operands (the symbolic comparison did not apply: %s)" % "; ".join(problems)[:160],
+                    bad=bad or "", variant=v.name)
+        chk.vcount(v.name, "R2.schoolbook_functions")
+        return
     chk.require(not problems, "R2", key, where=f.where,
                 ok="%d product terms over %d output ranges; indices i-j+cN in [0,N), sign (-1)^c, ranges cover [0,%s)" % (
                     len(terms), len(groups), sym.show(total)), bad="; ".join(problems)[:500], variant=v.name)
